@@ -38,7 +38,11 @@ T0 = 1500000000                      # virtual epoch (2017-07-14 02:40:00 UTC); 
 FLAVOURS = ['tms', 'wmts_kvp', 'wmts_rest', 'kml', 'wmsc']
 HANDLER = {'tms': 'service/tile.py', 'wmts_kvp': 'service/wmts.py', 'wmts_rest': 'service/wmts.py',
            'kml': 'service/kml.py', 'wmsc': 'service/wms.py'}
-PATHS = ['single', 'meta', 'bulk']
+PATHS = ['single', 'meta', 'bulk', 'merge']
+# 'merge' is a second world for the model path "single": a cache with two sources (an opaque base and a transparent
+# overlay) whose images MapProxy merges; on an upstream failure the overlay is the one that answers 500 and is mapped by
+# on_error to a fully transparent, uncacheable image - the mark has to survive the merge
+MPATH = {'single': 'single', 'meta': 'meta', 'bulk': 'bulk', 'merge': 'single'}
 BACKENDS = ['file', 'sqlite']
 # tiles of level 1 of the grid (4 x 4 tiles, north-west origin): t1,t2 share a 2x2 meta tile, t3,t4 the next one
 COORD = {'t1': (0, 0, 1), 't2': (1, 0, 1), 't3': (2, 0, 1), 't4': (3, 0, 1)}
@@ -84,6 +88,20 @@ def _png(w, h, ver, sclass):
     return b.getvalue()
 
 
+def _png_fill(w, h):
+    from PIL import Image
+    b = io.BytesIO()
+    Image.new('RGB', (w, h), (255, 0, 0)).save(b, 'PNG')
+    return b.getvalue()
+
+
+def _png_clear(w, h):
+    from PIL import Image
+    b = io.BytesIO()
+    Image.new('RGBA', (w, h), (0, 0, 0, 0)).save(b, 'PNG')
+    return b.getvalue()
+
+
 def _decode(data):
     """content version painted by the synthetic upstream; 0 = the red on_error fill image"""
     from PIL import Image
@@ -117,11 +135,19 @@ def install():
         if w is None:
             raise H.HTTPClientError('no world', response_code=500)
         w.uplog.append(url)
-        if w.fail:
-            raise H.HTTPClientError('HTTP Error "%s": 500' % url, response_code=500)
+        host = urlparse(url).netloc
         q = {k.lower(): v[0] for k, v in parse_qs(urlparse(url).query).items()}
         width, height = int(q.get('width', 8)), int(q.get('height', 8))
-        r = io.BytesIO(_png(width, height, w.ver, w.next_size))
+        if host == 'base.invalid':
+            # the base of the merged cache always answers: the fill colour while the overlay is down
+            data = _png_fill(width, height) if w.fail else _png(width, height, w.ver, w.next_size)
+        elif w.fail:
+            raise H.HTTPClientError('HTTP Error "%s": 500' % url, response_code=500)
+        elif host == 'overlay.invalid':
+            data = _png_clear(width, height)
+        else:
+            data = _png(width, height, w.ver, w.next_size)
+        r = io.BytesIO(data)
         r.headers = {'Content-type': 'image/png'}
         r.code = 200
         return r
@@ -158,15 +184,20 @@ def _conf(d, backend):
                   'supported_srs': ['EPSG:3857'], 'on_error': on_error},
             't': {'type': 'tile', 'url': 'http://upstream.invalid/t/%(z)s/%(x)s/%(y)s.png', 'grid': 'g',
                   'on_error': on_error},
+            'wb': {'type': 'wms', 'req': {'url': 'http://base.invalid/wms', 'layers': 'b'}, 'supported_srs': ['EPSG:3857']},
+            'wo': {'type': 'wms', 'req': {'url': 'http://overlay.invalid/wms', 'layers': 'o', 'transparent': True},
+                   'supported_srs': ['EPSG:3857'], 'on_error': {500: {'response': 'transparent', 'cache': False}}},
         },
         'caches': {
             'c_single': cache('single', 'w', meta_size=[1, 1], meta_buffer=0),
             'c_meta': cache('meta', 'w', meta_size=[2, 2], meta_buffer=0),
             'c_bulk': cache('bulk', 't', meta_size=[2, 2], bulk_meta_tiles=True),
+            'c_merge': dict(cache('merge', 'wb', meta_size=[1, 1], meta_buffer=0), sources=['wb', 'wo']),
         },
         'layers': [{'name': 'single', 'title': 's', 'sources': ['c_single']},
                    {'name': 'meta', 'title': 'm', 'sources': ['c_meta']},
-                   {'name': 'bulk', 'title': 'b', 'sources': ['c_bulk']}],
+                   {'name': 'bulk', 'title': 'b', 'sources': ['c_bulk']},
+                   {'name': 'merge', 'title': 'g', 'sources': ['c_merge']}],
     }
 
 
@@ -187,7 +218,10 @@ def _url(flavour, layer, coord):
                 '&TILEROW=%d&TILECOL=%d&FORMAT=image/png' % (layer, z, y, x))
     if flavour == 'wmsc':
         return ('/service?SERVICE=WMS&REQUEST=GetMap&VERSION=1.1.1&LAYERS=%s&SRS=EPSG:3857&BBOX=%s&WIDTH=8&HEIGHT=8'
-                '&FORMAT=image/png&STYLES=&TILED=true' % (layer, ','.join(str(v) for v in bbox)))
+                '&FORMAT=image/png&STYLES=&TILED=true%s' % (layer, ','.join(str(v) for v in bbox),
+                                                             # the merged cache is transparent: only a transparent request is
+                                                             # answered with the tile itself (anything else is rendered anew)
+                                                             '&TRANSPARENT=true' if layer == 'merge' else ''))
     raise ValueError(flavour)
 
 
@@ -342,7 +376,7 @@ FIXED = {'CopyInfo': True, 'ResetStamp': True, 'Branch': frozenset(FLAVOURS)}
 
 def consts(backend, path, flags, tiles=('t1', 't2'), flavours=FLAVOURS, maxclock=4, sizes=(1, 2), lenient=True):
     return dict(Lenient=lenient, Tiles=set(tiles), MetaOf={t: set(META[t]) & set(tiles) for t in tiles}, Flavours=set(flavours),
-                Backend=backend, Path=path, CopyInfo=bool(flags['CopyInfo']), ResetStamp=bool(flags['ResetStamp']),
+                Backend=backend, Path=MPATH[path], CopyInfo=bool(flags['CopyInfo']), ResetStamp=bool(flags['ResetStamp']),
                 BranchFlavours=set(flags['Branch']), MaxClock=maxclock, Sizes=set(sizes))
 
 
@@ -501,7 +535,7 @@ def attribute(flags, path, phase, flavour):
         return {'defect': 'no-store-branch-missing', 'handler': handler_of(flavour)}
     if path in ('meta', 'bulk') and not flags['CopyInfo'] and phase in ('create', 'refresh', 'error'):
         return {'defect': 'cache-info-not-copied', 'path': path}
-    if path == 'single' and not flags['ResetStamp'] and phase in ('refresh', 'error'):
+    if MPATH[path] == 'single' and not flags['ResetStamp'] and phase in ('refresh', 'error'):
         return {'defect': 'stale-timestamp-kept', 'path': path}
     return None
 
@@ -565,7 +599,7 @@ def detect(ctx, backend):
     cxs = parallel([(lambda v=v: counterexample(ctx, '%s-%s' % (backend, v[0]), backend, v[0], v[1],
                                                 sorted(branch) or FLAVOURS)) for v in variants])
     for (mpath, vflags, key, defect), (prop, cx) in zip(variants, cxs):
-        for path in ([mpath] if mpath == 'single' else ['meta', 'bulk']):
+        for path in (['single', 'merge'] if mpath == 'single' else ['meta', 'bulk']):
             ok, _ = reproduce(backend, path, cx)
             ctx.count(('cx', backend, key, path))
             fl = dict(FIXED, Branch=frozenset(branch))
@@ -685,7 +719,7 @@ def random_history(rng, backend, path, nsteps, tiles=('t1', 't2', 't3', 't4')):
                 ev = {'ev': 'expire'}
             elif k < 0.24:
                 t = rng.choice(tiles)
-                group = [t] if path == 'single' else sorted(META[t])
+                group = [t] if MPATH[path] == 'single' else sorted(META[t])
                 store_time = w.clock if backend == 'file' else 2 * (w.clock // 2)
                 if obs[t][0] < 0 or any(obs[u][0] >= store_time for u in group):
                     continue
@@ -697,7 +731,7 @@ def random_history(rng, backend, path, nsteps, tiles=('t1', 't2', 't3', 't4')):
             else:
                 t = rng.choice(tiles)
                 f = rng.choice(FLAVOURS)
-                group = [t] if path == 'single' else sorted(META[t])
+                group = [t] if MPATH[path] == 'single' else sorted(META[t])
                 if 0 <= obs[t][0] and obs[t][0] // 2 <= w.thr:
                     # an expired tile is about to be refreshed: never within the time unit in which it was written
                     while any(obs[u][0] >= (w.clock if backend == 'file' else 2 * (w.clock // 2)) for u in group):
